@@ -134,7 +134,7 @@ def prepare(ctx, spec):
                 for m in (mods or ["?"]):
                     ctx.note_broken("obligation", m, "; ".join(msgs[:4]))
         # audit
-        hits = E.audit_sources()
+        hits = E.audit_sources(targets)
         ctx.cmds.append("grep sorry|admit|axiom|native_decide|bv_decide|implemented_by|unsafe|maxHeartbeats 0 (outside comments)")
         for h in hits:
             ctx.note_broken("audit", "forbidden construct", h)
